@@ -1,11 +1,15 @@
 package checks
 
 import (
+	"bytes"
 	"context"
 	"encoding/json"
+	"errors"
 	"fmt"
+	"io"
 	"math/rand"
 	"net"
+	"net/http"
 	"net/http/httptest"
 	"net/netip"
 	"net/url"
@@ -175,6 +179,10 @@ func checkC17() fw.Check {
 					vn, n := vn, n
 					id := fmt.Sprintf("C17/concurrent/%s/%d", vn, n)
 					cases = append(cases, fw.Case{ID: id, Bubble: true, Run: func(c *fw.Ctx) { runC17Concurrent(c, id, refmatch.VariantByName(vn), n) }})
+					if n < 3 {
+						id2 := fmt.Sprintf("C17/dropped-client/%s/%d", vn, n)
+						cases = append(cases, fw.Case{ID: id2, Bubble: true, Run: func(c *fw.Ctx) { runC17DroppedClient(c, id2, refmatch.VariantByName(vn), n) }})
+					}
 				}
 			}
 			// the real command line over kernel routers (c17_cli_test.go): the labs are started first and collected last
@@ -509,6 +517,103 @@ func runC17Concurrent(c *fw.Ctx, id string, v refmatch.Variant, n int) {
 		}
 	}
 	c.Count("overlapping_requests", len(flags))
+}
+
+// failingWriter is a client that went away: the handler's writes fail (at once, or after `limit` bytes).
+type failingWriter struct {
+	h     http.Header
+	limit int
+	n     int
+}
+
+func (w *failingWriter) Header() http.Header { return w.h }
+func (w *failingWriter) WriteHeader(int)     {}
+func (w *failingWriter) Write(p []byte) (int, error) {
+	if w.n+len(p) <= w.limit {
+		w.n += len(p)
+		return len(p), nil
+	}
+	k := w.limit - w.n
+	w.n = w.limit
+	return k, errors.New("write tcp: broken pipe")
+}
+
+// runC17DroppedClient: requests follow each other on one server; the un-flagged ones are sent by clients that are gone
+// when the answer is written (the write fails at once / after 100 bytes). Whatever the handler kept from them must not
+// show up in the answer to the next, flagged request: that answer is exactly one JSON document without a private address.
+func runC17DroppedClient(c *fw.Ctx, id string, v refmatch.Variant, n int) {
+	resetProcessState()
+	var addrs []netip.Addr
+	for _, s := range boundaryAddrs {
+		a := netip.MustParseAddr(s)
+		if a.Is6() == v.V6 {
+			addrs = append(addrs, a)
+		}
+	}
+	for k := 0; k < n%len(addrs); k++ {
+		addrs = append(addrs[1:], addrs[0])
+	}
+	nhops := min(len(addrs), 6)
+	target := netip.MustParseAddr("198.51.100.97")
+	if v.V6 {
+		target = netip.MustParseAddr("2001:db8:77::97")
+	}
+	proto := map[string]string{"icmp": "icmp", "udp": "udp"}[v.Proto]
+	params := traceroute.TracerouteParams{Hostname: target.String(), Port: 33434, Protocol: proto, MinTTL: 1, MaxTTL: nhops + 1, Delay: 10,
+		Timeout: 400 * time.Millisecond, TCPMethod: traceroute.TCPConfigSYN, TracerouteQueries: 1, E2eQueries: 0, WantV6: v.V6}
+	env, err := newReqEnv(c, params, target, 33434, false)
+	if err != nil {
+		c.Inconclusive(err.Error())
+		return
+	}
+	defer env.close()
+	env.modelFor = func(k int, e *simEnv) *pathModel {
+		m := &pathModel{hops: map[int]*hopSpec{}, dist: nhops + 1, destDelay: 30 * time.Millisecond}
+		for t := 1; t <= nhops; t++ {
+			m.hops[t] = &hopSpec{addr: addrs[t-1], delay: time.Duration(3+t) * time.Millisecond}
+		}
+		return m
+	}
+	srv := server.NewServer()
+	allocMu.Lock()
+	defer allocMu.Unlock()
+	for step, limit := range []int{0, -1, 100, -1, 0, 0, -1} {
+		skip := limit < 0
+		q := url.Values{"target": {target.String()}, "protocol": {proto}, "port": {"33434"}, "max-ttl": {fmt.Sprint(nhops + 1)}, "timeout": {"400"},
+			"traceroute-queries": {"1"}, "e2e-queries": {"0"}, "skip-private-hops": {fmt.Sprint(skip)}, "ipv6": {fmt.Sprint(v.V6)}}
+		req := httptest.NewRequest("GET", "/traceroute?"+q.Encode(), nil)
+		if !skip {
+			srv.TracerouteHandler(&failingWriter{h: http.Header{}, limit: limit}, req)
+			continue
+		}
+		rec := httptest.NewRecorder()
+		srv.TracerouteHandler(rec, req)
+		tag := fmt.Sprintf("%s step %d (flagged request after a dropped un-flagged one)", id, step)
+		if rec.Code != 200 {
+			c.Violate("C17", "http-failed", fmt.Sprintf("%s: status %d: %s", tag, rec.Code, rec.Body.String()), nil)
+			return
+		}
+		raw := rec.Body.Bytes()
+		dec := json.NewDecoder(bytes.NewReader(raw))
+		var g map[string]any
+		if err := dec.Decode(&g); err != nil {
+			c.Violate("C17", "http-json", fmt.Sprintf("%s: %v", tag, err), nil)
+			return
+		}
+		var extra any
+		if err := dec.Decode(&extra); err != io.EOF {
+			c.Violate("C17", "http-extra-output", fmt.Sprintf("%s: the answer holds more than one JSON document", tag), map[string]any{"body": string(raw)})
+		}
+		scanHopsJSON(c, tag, g)
+		for _, a := range addrs[:nhops] {
+			if refPrivate(net.IP(a.AsSlice())) && bytes.Contains(raw, []byte(`"`+a.String()+`"`)) {
+				c.Violate("C17", "private-address-in-body", fmt.Sprintf("%s: the answer contains %s", tag, a), map[string]any{"body": string(raw)})
+				return
+			}
+		}
+		c.Count("requests_after_dropped_client", 1)
+		c.Nontrivial(fmt.Sprintf("dropped-client/%s/step%d", v.Name, step))
+	}
 }
 
 // boolSpelling: the spellings of a boolean query parameter that strconv.ParseBool (the documented parser) accepts
